@@ -279,6 +279,13 @@ def units(tier):
         # entries of two pieces differ because they lie in the cycles POS(j1) != POS(j2) of two different subset cycles (sv[POS(j)] = j)
         p2 = z3.Int('pp2')
         c.oblige('post:each-sample-listed-once', z3.Implies(z3.And(0 <= p, p < p2, p2 < L), r.elem(p) != r.elem(p2)), 'post')
+        # order (the counterpart of map_chain_to_cycle's "j-th entry is the cycle of the j-th subset cycle of the chain"): the list is laid out cycle by
+        # cycle in the order of the chain's subset cycles, the samples of each cycle ascending - entry OFF(j) + q is the q-th sample of cycle POS(j-th subset cycle)
+        jj, qq = z3.Ints('pj pq')
+        nsub = KKc(lift(k))
+        cyc = POS(WWc(lift(k), jj))
+        c.oblige('post:cycle-by-cycle-in-subset-order', z3.And(L == OFF(nsub), z3.Implies(z3.And(0 <= jj, jj < nsub), z3.And(OFF(jj + 1) == OFF(jj) + KKv(cyc),
+                 z3.Implies(z3.And(0 <= qq, qq < KKv(cyc)), r.elem(OFF(jj) + qq) == WWv(cyc, qq))))), 'post')
     unit('map_chain_to_samples', mk, post, inline=['map_chain_to_subset'])
     U[-1].ns = dict(U[-1].ns or {}, map_subset_to_sample=subset_to_sample_stub)
 
